@@ -37,7 +37,7 @@ Definition enc_item (i : item) : obs :=
   | ILogExc => OTag "LogExc"
   end.
 Definition enc_ltag (t : ltag) : obs :=
-  OTag (match t with TRead => "read" | TBlocked => "blocked" | TEnded => "ended" end).
+  OTag (match t with TOpening => "opening" | TRead => "read" | TBlocked => "blocked" | TEnded => "ended" end).
 Definition enc_snap (n : snap) : obs :=
   OList [OBool (n_sc n); OBool (n_ct n); OBool (n_st n); OBool (n_wait n); OBool (n_hconn n); enc_ltag (n_loop n)].
 Definition enc_step (o : list item * snap) : obs :=
@@ -96,7 +96,7 @@ Definition dec_item (o : obs) : option item :=
 Definition dec_ltag (o : obs) : option ltag :=
   match o with
   | OTag t => if t =? "read" then Some TRead else if t =? "blocked" then Some TBlocked
-              else if t =? "ended" then Some TEnded else None
+              else if t =? "ended" then Some TEnded else if t =? "opening" then Some TOpening else None
   | _ => None
   end.
 Definition dec_snap (o : obs) : option snap :=
